@@ -192,6 +192,11 @@ def run(ctx):
             # (reaching eval_root_ast through a helper is fine: the who-may-call closure above covers every route)
             ctx.report("C15-fallback", name + "/path", "%s evaluates statements without eval_root_ast/eval_ast (%s)" % (name, direct), where_of(f))
     ctx.floor("C15-fallback", 5)
+    # an arity error is raised where nothing but the callee is at hand: it must not borrow the callee's source positions
+    ctx.rule("C15-callee-text", "an error raised on behalf of a call (wrong argument count) never carries a position of the called "
+                                "procedure's own text, which may lie in another top-level form")
+    from . import evaltables as _et15
+    _et15.rule_arity_location(ctx, "C15-callee-text")
 
     # ------------------------------------------------------------------ C15-offender
     ctx.rule("C15-offender", "unbound variable / non-procedure errors are located at the offending identifier / operator")
